@@ -93,7 +93,10 @@ def gen_query(rng, world, snap, attrs, qid, names=ATTRS):
         q["s"] = rng.choice(roots)
     if fn in ("findall", "find"):
         r = rng.random()
-        if r < 0.4:
+        if r < 0.06:
+            # a user filter that raises TypeError the first time it is called (per call of the search function)
+            q["f"] = ["flaky", sorted(i for i in range(n) if rng.random() < 0.5)]
+        elif r < 0.4:
             q["f"] = ["idx", sorted(i for i in range(n) if rng.random() < 0.5)]
         elif r < 0.8:
             q["f"] = ["attr", rng.choice(tuple(names) + ("name",)), rng.choice(VALUES + ("n1",))]
@@ -120,7 +123,7 @@ def reference(q, snap, attrs):
         f = q.get("f")
         if f is None:
             flt = lambda i: True  # noqa: E731
-        elif f[0] == "idx":
+        elif f[0] in ("idx", "flaky"):
             fset = set(f[1])
             flt = lambda i: i in fset  # noqa: E731
         else:
@@ -146,6 +149,20 @@ def build_call(q, world, cache):
             ix = world.index
             if f is None:
                 ff = None
+            elif f[0] == "flaky":
+                fset = frozenset(f[1])
+
+                class Flaky(object):
+                    def __init__(self):
+                        self.calls = 0
+
+                    def __call__(self, nd):
+                        self.calls += 1
+                        if self.calls == 1:
+                            raise TypeError("filter not ready")
+                        return ix(nd) in fset
+
+                ff = Flaky
             elif f[0] == "idx":
                 fset = frozenset(f[1])
                 ff = lambda nd: ix(nd) in fset  # noqa: E731
@@ -158,7 +175,8 @@ def build_call(q, world, cache):
                 sset = frozenset(q["stop"])
                 sf = lambda nd: ix(nd) in sset  # noqa: E731
             fns = cache[key] = (ff, sf)
-        order = [("filter_", fns[0]), ("stop", fns[1]), ("maxlevel", q["ml"])]
+        flt_obj = fns[0]() if isinstance(fns[0], type) else fns[0]  # a fresh stateful filter for every call
+        order = [("filter_", flt_obj), ("stop", fns[1]), ("maxlevel", q["ml"])]
         if fn == "findall":
             order += [("mincount", q.get("min")), ("maxcount", q.get("max"))]
     else:
@@ -273,6 +291,10 @@ def run(cfg, ops=None, rng=None):
                     expect = ("value", want[0])
                 else:
                     expect = ("CountError", 1)
+            if fn in ("findall", "find") and q.get("f") and q["f"][0] == "flaky":
+                visited = ref_preorder(snap, q["s"], lambda i: True, set(q["stop"] or ()), q["ml"])
+                if visited:
+                    expect = ("TypeError", None)
             outcomes = []
             for mname, mod in MODS:
                 args, kwargs = build_call(q, world, cache)
@@ -299,7 +321,10 @@ def run(cfg, ops=None, rng=None):
             h.update(repr((step, fn, outcomes)).encode())
             ctx = "step %d %s on links %r attrs %r" % (step, q, snap, attrs)
             got = outcomes[0]
-            if expect[0] == "value":
+            if expect[0] == "TypeError":
+                if got[0] != "exc" or got[1] != "TypeError":
+                    raise Violation(prop, "result", step, "result:filter-error:" + fn, "%s: the filter raised TypeError, search.%s gave %r" % (ctx, fn, got))
+            elif expect[0] == "value":
                 if got != expect:
                     raise Violation(prop, "result", step, "result:" + fn, "%s: search.%s gave %r, specified %r" % (ctx, fn, got, expect[1]))
             else:
